@@ -18,7 +18,7 @@ BUILT={
         "RFC 3597 s.4 set hard-coded in the model"),
  "C05":("exploration","runtime monitor: String()->NewRR round trip with octet comparison for wire-decoded and struct-built records; independent RFC 1035 s.5.1 tokenizer and typed field reader for 56 regular types; one-hostile-feature-at-a-time matrix over every text field; generic-form and numeric/mnemonic spellings; all 65536 type/class codes",
         "The feature matrix attributes every failure to one (type, field, content class); the independent reader decides whether other implementations would read the same values.",
-        "independent value-level readers exist for the regular types and for LOC, APL, NSEC3, NSEC3PARAM, NSEC, CSYNC, IPSECKEY, AMTRELAY; the other bespoke formats (SVCB/HTTPS, HIP, CERT, RRSIG/SIG times, TKEY) are checked token-level only"),
+        "independent value-level readers exist for the regular types and for LOC, APL, NSEC3, NSEC3PARAM, NSEC, CSYNC, IPSECKEY, AMTRELAY, RRSIG, SIG, HIP; the other bespoke formats (SVCB/HTTPS, CERT mnemonics) are checked token-level only"),
  "C06":("exploration","runtime monitor: model record lists rendered by an independent zone writer choosing among equivalent spellings (owner/TTL/class omission and order, units, case, parentheses, comments, $ORIGIN/$TTL/$GENERATE/$INCLUDE), parser output compared with the list the text denotes; TTL-state x line-shape matrix, quoting and keyword-like-token matrices",
         "Metamorphic + model: every rendering of a record list must parse to that list; $GENERATE is expanded by an independent implementation; include trees come from an in-memory FS.",
         "14 regular record types rendered by the harness's own RDATA writer; cases the statement leaves open (owner/TTL right after $GENERATE/$INCLUDE) are never produced"),
